@@ -186,7 +186,7 @@ func builtinsHandle(c map[string]J) map[string]J {
 	}()
 	select {
 	case <-done:
-	case <-time.After(5 * time.Second):
+	case <-time.After(wd(5 * time.Second)):
 		return map[string]J{"status": "mismatch", "input": "?- " + q, "what": "the call did not finish enumerating within 5s", "expected": want, "observed": "hang", "fatal": true}
 	}
 	_ = sols.Close()
